@@ -128,29 +128,48 @@ template <class K> struct QueryTable {
 template <class K> static void run_c20(Ctx &ctx, int rounds) {
     EngCfg g; g.chk_model = false; g.steps = 10; g.build_steps = 12; g.init_bu = 7; g.allow_toggle_bu = false; g.allow_set = false; g.allow_clear = false;
     g.init_mode = 1 | (int)(ctx.case_no & 2); g.fan_bias = 2; g.w_del = 14; g.allow_gc = false; g.allow_modes = false;   // deferred-deleted entities stay in the arrays
+    g.persistent_tags = true;   // the identity tags travel with a copy of the mesh
     Engine<K> e(ctx, g);
     e.run();
     e.rescan();
-    // live properties of several value types, written before the threads start
-    auto fstr = e.mesh.template request_face_property<std::string>("c20:str", "dflt");
-    auto eb = e.mesh.template request_edge_property<bool>("c20:bool", false);
-    for (int f = 0; f < e.s.nf; ++f) fstr[FaceHandle(f)] = "face" + std::to_string(f * 7919);
-    for (int x = 0; x < e.s.ne; ++x) eb[EdgeHandle(x)] = (x * 7) % 3 == 0;
-    auto vi = e.mesh.template request_vertex_property<int>("c20:val", -1);
-    auto vd = e.mesh.template request_vertex_property<double>("c20:val", 0.5);
-    auto cv3 = e.mesh.template request_cell_property<Vec3d>("c20:vec", Vec3d(1, 2, 3));
-    auto hfvd = e.mesh.template request_halfface_property<std::vector<double>>("c20:vd");
-    for (int v = 0; v < e.s.nv; ++v) { vi[VertexHandle(v)] = v * 31 + 5; vd[VertexHandle(v)] = v * 0.25 - 3; }
-    for (int c = 0; c < e.s.nc; ++c) cv3[CellHandle(c)] = Vec3d(c, c * 2.5, -c);
-    for (int hf = 0; hf < 2 * e.s.nf; ++hf) hfvd[HalfFaceHandle(hf)] = std::vector<double>((size_t)(hf % 4), hf * 1.5);
-    auto *hep = static_cast<PropT<int, ovm::Entity::HalfEdge> *>(e.hetag);
-    QueryTable<K> T;
-    T.build(e.s, e.vtag, e.ctag, hep->p, fstr, eb);
-    const XMesh<K> &cm = e.mesh;
+    // live properties of several value types, written before the threads start (persistent: a copy of the mesh carries them)
+    namespace E = ovm::Entity;
+    { auto fstr = *e.mesh.template create_persistent_property<std::string, E::Face>("c20:str", "dflt");
+      auto eb = *e.mesh.template create_persistent_property<bool, E::Edge>("c20:bool", false);
+      auto vi = *e.mesh.template create_persistent_property<int, E::Vertex>("c20:val", -1);
+      auto vd = *e.mesh.template create_persistent_property<double, E::Vertex>("c20:val", 0.5);
+      auto cv3 = *e.mesh.template create_persistent_property<Vec3d, E::Cell>("c20:vec", Vec3d(1, 2, 3));
+      auto hfvd = *e.mesh.template create_persistent_property<std::vector<double>, E::HalfFace>("c20:vd");
+      for (int f = 0; f < e.s.nf; ++f) fstr[FaceHandle(f)] = "face" + std::to_string(f * 7919);
+      for (int x = 0; x < e.s.ne; ++x) eb[EdgeHandle(x)] = (x * 7) % 3 == 0;
+      for (int v = 0; v < e.s.nv; ++v) { vi[VertexHandle(v)] = v * 31 + 5; vd[VertexHandle(v)] = v * 0.25 - 3; }
+      for (int c = 0; c < e.s.nc; ++c) cv3[CellHandle(c)] = Vec3d(c, c * 2.5, -c);
+      for (int hf = 0; hf < 2 * e.s.nf; ++hf) hfvd[HalfFaceHandle(hf)] = std::vector<double>((size_t)(hf % 4), hf * 1.5); }
+    // The readers work on a copy of the mesh that no query has touched yet (the history above has read every part of
+    // the original): state that a const query fills in lazily on first use is still cold there. Every second case uses
+    // the original instead (a copy might hide what only the construction history leaves behind).
+    const bool use_cold = ctx.case_no % 2 == 0;
+    XMesh<K> cold_storage; if (use_cold) cold_storage = e.mesh;
+    ctx.cls(use_cold ? "readers-on:untouched-copy" : "readers-on:original");
+    struct Handles { ovm::VertexPropertyT<int> vtag; ovm::CellPropertyT<int> ctag; ovm::HalfEdgePropertyT<int> hetag; ovm::FacePropertyT<std::string> fstr; ovm::EdgePropertyT<bool> eb; };
+    auto acquire = [](XMesh<K> &m) { return Handles{*m.template get_property<int, E::Vertex>("vf:v"), *m.template get_property<int, E::Cell>("vf:c"), *m.template get_property<int, E::HalfEdge>("vf:he"),
+                                                     *m.template get_property<std::string, E::Face>("c20:str"), *m.template get_property<bool, E::Edge>("c20:bool")}; };
+    Handles href = acquire(e.mesh);
+    XMesh<K> &tm = use_cold ? cold_storage : e.mesh;
+    Handles hrun = use_cold ? acquire(cold_storage) : href;
+    QueryTable<K> Tref, T;
+    Tref.build(e.s, href.vtag, href.ctag, href.hetag, href.fstr, href.eb);
+    T.build(e.s, hrun.vtag, hrun.ctag, hrun.hetag, hrun.fstr, hrun.eb);
+    const XMesh<K> &cm = tm;
+    const XMesh<K> &refm = e.mesh;
     const size_t nq = T.qs.size();
-    // single-threaded reference: one digest per query
+    // single-threaded reference: one digest per query, computed on the original mesh
     std::vector<uint64_t> ref(nq);
-    for (size_t i = 0; i < nq; ++i) ref[i] = T.qs[i].fn(cm);
+    for (size_t i = 0; i < nq; ++i) {
+        // registry counts depend on which handles are alive on a mesh object: their reference is taken on the mesh the readers use
+        std::string kd = T.qs[i].kind; bool registry = kd.rfind("n_props", 0) == 0 || kd.rfind("persistent_props", 0) == 0 || kd.rfind("PropertyPtr.bool", 0) == 0;
+        ref[i] = registry ? T.qs[i].fn(cm) : Tref.qs[i].fn(refm);
+    }
     static const int TC[] = {2, 4, 8, 16};
     int nthreads = TC[ctx.case_no % 4];
     ctx.cnt.add("query-kinds", (long long)T.kinds.size()); ctx.cnt.add("queries-in-table", (long long)nq);
